@@ -45,6 +45,8 @@ package config
 //@   requires def != nil && lc != nil
 //@   modifies cdom, cval
 //@   ensures result#1 == nil ==> result != nil
+//@   callsite Merge
+//@     requires #C09.envfile-under-env arg0 == t.Env
 //@ func buildContext
 //@   requires def != nil
 //@   modifies cdom, cval
